@@ -274,6 +274,7 @@ type corpusType struct {
 var types []*corpusType
 var reqTypes []*corpusType   // the request-shaped part of the corpus (gen_types.py ReqGen)
 var namedTypes []*corpusType // the types over defined scalar types (gen_types.py NamedGen)
+var timeTypes []*corpusType  // types with a time.Time leaf
 var typeByName = map[string]*corpusType{}
 
 func collectDefaults(n *tyNode, out *[]string) {
@@ -309,6 +310,12 @@ func loadCorpus() {
 		}
 		collectDefaults(node, &ct.Dflts)
 		types = append(types, ct)
+		for _, lf := range ct.Shapes[0].Leaves {
+			if lf.Prim == "t" {
+				timeTypes = append(timeTypes, ct)
+				break
+			}
+		}
 		switch {
 		case i >= 480:
 			namedTypes = append(namedTypes, ct)
@@ -365,7 +372,10 @@ type caseT struct {
 	Via     string      // entry A: only (BindOnly), bind (Bind), must (MustBind)
 	Binder  bool        // through a reusable Binder built with Opts (QueryWith/…To methods/BindWith/Binder.BindTo)
 	Call    *optsT      // entries B through a Binder: per-call options on top of the Binder's
-	NT      bool        // carries a boundary / out-of-range / malformed value (for the non-triviality rule)
+	Warm    [][2]string // an earlier, different request bound the same way (same type, entry point, options) whose
+	WarmS   []srcCase   // result is then written through (pointers, slices, maps): binds must not share state
+	HasWarm bool
+	NT      bool // carries a boundary / out-of-range / malformed value (for the non-triviality rule)
 }
 
 type srcCase struct {
@@ -421,6 +431,9 @@ var floatBad = []string{"abc", "", "1e400", "-1e400", "1,5", "1.2.3", " 1", "1 "
 var intOdd = []string{"+5", "007", "-0", "0x10", "0b101", "0o17", "017", "1_000", "0_7", "5.0", "1e3", " 5", "5 ", "", "abc", "12abc", "--1",
 	"99999999999999999999", "-99999999999999999999", "0x", "٣"}
 
+// ambiguousLayouts is set while the source of a case with day/month-ambiguous time layouts is generated.
+var ambiguousLayouts bool
+
 // genValue returns a value string for a leaf of the given prim. With bad it is out of range or
 // malformed for the kind; otherwise representable (typical values and the exact boundaries). The
 // second result says whether the value is a boundary, out-of-range or malformed one.
@@ -467,6 +480,10 @@ func genValue(r *hx.Rand, prim string, bad bool) (string, bool) {
 	case 's':
 		return hx.Pick(r, strPool), false
 	case 't':
+		if ambiguousLayouts && r.Chance(7, 10) {
+			// day/month layouts configured both ways round: values only one of them accepts, and values both do
+			return hx.Pick(r, []string{"25/12/2024", "12/25/2024", "03/04/2024", "13/01/2024", "01/13/2024", "05/06/2024", "31/01/2024"}), true
+		}
 		if !bad {
 			if r.Chance(1, 6) {
 				return hx.Pick(r, []string{"01/15/2024", "2024.01.15", "Jan 2 2024"}), true // only with WithTimeLayouts
@@ -497,7 +514,7 @@ func genOpts(r *hx.Rand) optsT {
 	o.CSV = r.Chance(3, 20)
 	o.BaseAuto = r.Chance(3, 20)
 	if r.Chance(1, 8) {
-		o.Layouts = hx.Pick(r, [][]string{{"01/02/2006"}, {"2006.01.02", "Jan 2 2006"}, {}})
+		o.Layouts = hx.Pick(r, [][]string{{"01/02/2006"}, {"2006.01.02", "Jan 2 2006"}, {}, {"01/02/2006", "02/01/2006"}, {"02/01/2006", "01/02/2006"}})
 	}
 	return o
 }
@@ -508,6 +525,13 @@ func genCase(r *hx.Rand) caseT {
 		ct = hx.Pick(r, namedTypes)
 	}
 	c := caseT{T: ct.E.Name, Tag: r.Intn(5), Opts: genOpts(r)}
+	forceWarm := false
+	if len(c.Opts.Layouts) == 2 && strings.Contains(c.Opts.Layouts[0], "/") && len(timeTypes) > 0 {
+		// day/month-ambiguous layouts: on a type that has time fields, after an earlier request
+		ct = hx.Pick(r, timeTypes)
+		c.T = ct.E.Name
+		forceWarm = true
+	}
 	switch k := r.Intn(20); {
 	case k < 8:
 		c.Entry = "G"
@@ -586,14 +610,90 @@ func genCase(r *hx.Rand) caseT {
 			c.Srcs = nil // ErrNoSourcesProvided
 		}
 		c.Gen = c.Prefill == 0 && r.Chance(1, 2)
+		if forceWarm || r.Chance(3, 5) {
+			c.HasWarm = true
+			var nt bool
+			for _, sc := range c.Srcs {
+				c.WarmS = append(c.WarmS, srcCase{Tag: sc.Tag, KV: genSrc(r, ct.Shapes[sc.Tag], sc.Tag, c.Opts.over(c.Call), &nt, r.Range(2, 7))})
+			}
+		}
 		return c
 	}
 	c.Src = genSrc(r, ct.Shapes[c.Tag], c.Tag, c.Opts, &c.NT, r.Range(3, 9))
+	if forceWarm || r.Chance(3, 5) {
+		c.HasWarm = true
+		var nt bool
+		c.Warm = genSrc(r, ct.Shapes[c.Tag], c.Tag, c.Opts, &nt, r.Range(2, 7))
+	}
 	return c
+}
+
+// scribble writes through everything a bound value points to: what a handler may do with its request
+// struct. A later bind must not see any of it (no state shared through the struct-info cache or the source).
+func scribble(v reflect.Value, depth int) {
+	if depth > 8 {
+		return
+	}
+	switch v.Kind() {
+	case reflect.Pointer:
+		if v.IsNil() {
+			return
+		}
+		e := v.Elem()
+		if e.CanSet() {
+			garbage(e)
+		}
+		scribble(e, depth+1)
+	case reflect.Struct:
+		if v.Type() == timeT {
+			return
+		}
+		for i := 0; i < v.NumField(); i++ {
+			if v.Type().Field(i).IsExported() {
+				scribble(v.Field(i), depth+1)
+			}
+		}
+	case reflect.Slice:
+		for i := 0; i < v.Len(); i++ {
+			if v.Index(i).CanSet() {
+				garbage(v.Index(i))
+			}
+		}
+	case reflect.Map:
+		if v.IsNil() {
+			return
+		}
+		for _, k := range v.MapKeys() {
+			e := reflect.New(v.Type().Elem()).Elem()
+			garbage(e)
+			v.SetMapIndex(k, e)
+		}
+	}
+}
+
+func garbage(e reflect.Value) {
+	switch e.Kind() {
+	case reflect.Int, reflect.Int8, reflect.Int16, reflect.Int32, reflect.Int64:
+		e.SetInt(77)
+	case reflect.Uint, reflect.Uint8, reflect.Uint16, reflect.Uint32, reflect.Uint64:
+		e.SetUint(77)
+	case reflect.Float32, reflect.Float64:
+		e.SetFloat(77.5)
+	case reflect.Bool:
+		e.SetBool(!e.Bool())
+	case reflect.String:
+		e.SetString("scribbled")
+	case reflect.Struct:
+		if e.Type() == timeT {
+			e.Set(reflect.ValueOf(time.Date(1977, 7, 7, 7, 7, 7, 0, time.UTC)))
+		}
+	}
 }
 
 // genSrc builds the content of one source of kind tag, aimed at the leaves the type has under it.
 func genSrc(r *hx.Rand, sh *shape, tagKind int, opts optsT, ntFlag *bool, pPresent int) [][2]string {
+	ambiguousLayouts = len(opts.Layouts) == 2 && strings.Contains(opts.Layouts[0], "/")
+	defer func() { ambiguousLayouts = false }()
 	var src [][2]string
 	multi := tagKind != 1 // path parameters are single-valued
 	qf := tagKind == 0 || tagKind == 2
@@ -1354,6 +1454,28 @@ func emit(id string, c caseT, st *hx.Stats) string {
 	}
 	l.Nat(n).Tok(strings.TrimSpace(tl.String()))
 	in := l.String()
+	if c.HasWarm && c.Entry != "A" {
+		// the earlier request: bound the same way into a scratch value, which is then written through
+		func() {
+			defer func() { _ = recover() }()
+			w := c
+			w.Src, w.Srcs, w.Prefill = c.Warm, c.WarmS, 0
+			ws := &srcT{}
+			if w.Entry != "B" {
+				ws = buildSrc(w.Tag, w.Src)
+			}
+			wres, _, _ := run(ct, &w, ws, ct.E.New())
+			if wres != nil {
+				rv := reflect.ValueOf(wres)
+				if rv.Kind() != reflect.Pointer {
+					p := reflect.New(rv.Type())
+					p.Elem().Set(rv)
+					rv = p
+				}
+				scribble(rv, 0)
+			}
+		}()
+	}
 	var res any
 	var err error
 	var panicked bool
@@ -1411,6 +1533,9 @@ func emit(id string, c caseT, st *hx.Stats) string {
 		st.Count(fmt.Sprintf("nest_depth_%d", sh.NestDepth))
 		if c.Prefill != 0 {
 			st.Count("prefilled")
+		}
+		if c.HasWarm {
+			st.Count("earlier_request_scribbled")
 		}
 		if c.Binder {
 			st.Count("binder_" + c.Entry)
@@ -1561,6 +1686,24 @@ func fixedCases() []caseT {
 		}
 		if found {
 			break
+		}
+	}
+	// sequences: a pointer field with a default, absent twice (the first result is written through); and a
+	// day/month-ambiguous layout pair after an earlier request that only the second layout accepts
+	var seqP, seqT bool
+	for _, ct := range types {
+		for _, lf := range ct.Shapes[0].Leaves {
+			if !seqP && lf.Kind == "ptr" && lf.Prim[0] == 'i' && !lf.Nested && lf.Dflt != "" {
+				if _, err := strconv.Atoi(lf.Dflt); err == nil && lf.Dflt != "77" && len(lf.Dflt) < 3 {
+					seqP = true
+					out = append(out, caseT{T: ct.E.Name, Tag: 0, Entry: "G", Opts: optsT{-1, -1, -1, false, false, nil}, HasWarm: true, NT: true})
+				}
+			}
+			if !seqT && lf.Kind == "prim" && lf.Prim == "t" && !lf.Nested {
+				seqT = true
+				out = append(out, caseT{T: ct.E.Name, Tag: 0, Entry: "G", Opts: optsT{-1, -1, -1, false, false, []string{"01/02/2006", "02/01/2006"}},
+					HasWarm: true, Warm: [][2]string{{lf.Keys[0], "25/12/2024"}}, Src: [][2]string{{lf.Keys[0], "03/04/2024"}}, NT: true})
+			}
 		}
 	}
 	// K04e: pointer to slice with a value; K04g: an empty map field under WithMaxMapSize(3);
